@@ -19,6 +19,7 @@ import (
 
 	"github.com/openconfig/gribigo/compliance"
 	"github.com/openconfig/gribigo/fluent"
+	"github.com/openconfig/gribigo/rib"
 	"github.com/openconfig/gribigo/server"
 	"google.golang.org/grpc/codes"
 	"google.golang.org/protobuf/proto"
@@ -106,9 +107,28 @@ func newWorld(cfg Config) *world {
 	if cfg.NoFwdRefs {
 		opts = append(opts, server.WithNoRIBForwardReferences())
 	}
-	s, err := server.New(opts...)
-	if err != nil {
-		panic(err)
+	var s *server.Server
+	if cfg.DefaultNI == server.DefaultNetworkInstanceName {
+		var err error
+		if s, err = server.New(opts...); err != nil {
+			panic(err)
+		}
+	} else {
+		// a reference server whose default instance has another name (there is no instance "DEFAULT" on it)
+		var ropts []rib.RIBOpt
+		if cfg.NoFwdRefs {
+			ropts = append(ropts, rib.DisableForwardReferences())
+		}
+		r := rib.New(cfg.DefaultNI, ropts...)
+		if err := r.AddNetworkInstance(cfg.VRF); err != nil {
+			panic(err)
+		}
+		fs, err := server.NewFake()
+		if err != nil {
+			panic(err)
+		}
+		fs.InjectRIB(r)
+		s = fs.Server
 	}
 	w := &world{cfg: cfg, srv: s, front: s}
 	if cfg.Fault != "" {
@@ -256,12 +276,14 @@ func configs(tier string) []Config {
 		base = append(base,
 			Config{Name: "id7/default-names", StartID: 7, DefaultNI: server.DefaultNetworkInstanceName, VRF: "NON-DEFAULT-VRF"},
 			Config{Name: "id2^40/default-names", StartID: 1 << 40, DefaultNI: server.DefaultNetworkInstanceName, VRF: "NON-DEFAULT-VRF"},
-			// another name for the non-default instance (the reference server's default instance name is a constant)
+			// another name for the non-default instance only
 			Config{Name: "id1/vrf-x", StartID: 1, DefaultNI: server.DefaultNetworkInstanceName, VRF: "vrf-x"},
 		)
 	} else {
 		base = append(base, Config{Name: "id2^40/default-names", StartID: 1 << 40, DefaultNI: server.DefaultNetworkInstanceName, VRF: "NON-DEFAULT-VRF"})
 	}
+	// both network instances renamed (the suite is told through its setters, as ccli does)
+	base = append(base, Config{Name: "id1/renamed-instances", StartID: 1, DefaultNI: "MAIN-TABLE", VRF: "CUSTOMER-A"})
 	return base
 }
 
